@@ -1186,6 +1186,8 @@ impl<
         self.failed.store(false, Ordering::Relaxed);
         let num_shards = self.shard_edge.num_shards();
         let buffer_size = self.num_threads.ilog2() as usize;
+        #[cfg(sux_verif)]
+        crate::verif_hooks::event("ps.start", self.num_threads, num_shards);
 
         let (err_send, err_recv) = crossbeam_channel::bounded::<_>(self.num_threads);
         let (data_send, data_recv) = crossbeam_channel::bounded::<(
@@ -1201,11 +1203,15 @@ impl<
                     .zip(data.try_chunks_mut(self.shard_edge.num_vertices()).unwrap())
                     .enumerate()
                 {
+                    #[cfg(sux_verif)]
+                    crate::verif_hooks::event("ps.send_begin", val.0, 0);
                     if data_send.send(val).is_err() {
                         break;
                     }
                 }
 
+                #[cfg(sux_verif)]
+                crate::verif_hooks::event("ps.drop_sender", 0, 0);
                 drop(data_send);
             });
 
@@ -1217,9 +1223,19 @@ impl<
                 scope.spawn(move || {
                     loop {
                         match data_recv.recv() {
+                            #[cfg(sux_verif)]
+                            Err(_) => {
+                                crate::verif_hooks::event("ps.recv_disc", _thread_id, 0);
+                                return;
+                            }
+                            #[cfg(not(sux_verif))]
                             Err(_) => return,
                             Ok((shard_index, (shard, mut data))) => {
+                                #[cfg(sux_verif)]
+                                crate::verif_hooks::event("ps.recv", _thread_id, shard_index);
                                 if shard.is_empty() {
+                                    #[cfg(sux_verif)]
+                                    crate::verif_hooks::event("ps.empty_exit", _thread_id, shard_index);
                                     return;
                                 }
 
@@ -1245,6 +1261,8 @@ impl<
                                     if self.check_dups {
                                         shard.radix_sort_builder().sort();
                                         if shard.par_windows(2).any(|w| w[0].sig == w[1].sig) {
+                                            #[cfg(sux_verif)]
+                                            crate::verif_hooks::event("ps.err_send_begin", _thread_id, shard_index);
                                             let _ = err_send.send(SolveError::DuplicateSignature);
                                             return;
                                         }
@@ -1298,6 +1316,8 @@ impl<
                                         } else {
                                             // For function, we have to try again
                                             if shard_len != shard.len() {
+                                                #[cfg(sux_verif)]
+                                                crate::verif_hooks::event("ps.err_send_begin", _thread_id, shard_index);
                                                 let _ = err_send
                                                     .send(SolveError::DuplicateLocalSignature);
                                                 return;
@@ -1318,9 +1338,13 @@ impl<
                                 ));
 
                                 if self.failed.load(Ordering::Relaxed) {
+                                    #[cfg(sux_verif)]
+                                    crate::verif_hooks::event("ps.saw_failed", _thread_id, shard_index);
                                     return;
                                 }
 
+                                #[cfg(sux_verif)]
+                                crate::verif_hooks::event("ps.solve_begin", _thread_id, shard_index);
                                 if TypeId::of::<V>() == TypeId::of::<EmptyVal>() {
                                     // For filters, we fill the array with random data, otherwise
                                     // elements with signature 0 would have a significantly higher
@@ -1333,14 +1357,20 @@ impl<
                                 }
 
                                 if solve_shard(self, shard_index, shard, data, &mut pl).is_err() {
+                                    #[cfg(sux_verif)]
+                                    crate::verif_hooks::event("ps.err_send_begin", _thread_id, shard_index);
                                     let _ = err_send.send(SolveError::UnsolvableShard);
                                     return;
                                 }
 
                                 if self.failed.load(Ordering::Relaxed) {
+                                    #[cfg(sux_verif)]
+                                    crate::verif_hooks::event("ps.saw_failed", _thread_id, shard_index);
                                     return;
                                 }
 
+                                #[cfg(sux_verif)]
+                                crate::verif_hooks::event("ps.completed", _thread_id, shard_index);
                                 main_pl.info(format_args!(
                                     "Completed shard {}/{}",
                                     shard_index + 1,
@@ -1357,13 +1387,19 @@ impl<
             drop(data_recv);
 
             if let Some(error) = err_recv.into_iter().next() {
+                #[cfg(sux_verif)]
+                crate::verif_hooks::event("ps.set_failed", 0, 0);
                 self.failed.store(true, Ordering::Relaxed);
                 return Err(error);
             }
 
+            #[cfg(sux_verif)]
+            crate::verif_hooks::event("ps.main_ok", 0, 0);
             Ok(())
         });
 
+        #[cfg(sux_verif)]
+        crate::verif_hooks::event("ps.end", result.is_ok() as usize, 0);
         main_pl.done();
         result
     }
